@@ -333,6 +333,14 @@ func (g *G) Block(depth int) []*Node {
 			if g.O.ShorthandElse && g.chance(2) && !br {
 				c.Chain = append(c.Chain, Branch{Header: "else", Kids: g.Block(depth - 1)})
 			}
+			if g.O.ShorthandElse && br && g.chance(2) {
+				// both documented styles in one chain: `- if x {` continued by shorthand `- else if` / `- else`
+				if g.chance(2) {
+					cond = g.boolFrag()
+					c.Chain = append(c.Chain, Branch{Header: "else if " + cond, Cond: cond, Kids: g.Block(depth - 1)})
+				}
+				c.Chain = append(c.Chain, Branch{Header: "else", Kids: g.Block(depth - 1)})
+			}
 			out = append(out, c)
 			if !g.O.StmtAfterBlock || g.chance(2) {
 				// a following `- stmt` sibling would leave the block unclosed (finding C03/unclosed-block)
@@ -511,7 +519,11 @@ func GenFile(r *rand.Rand, o Opts, nLayouts, nPages int) *File {
 		pad = func(ns []*Node) {
 			for _, n := range ns {
 				if n.Kind == KStmt && g.chance(2) {
-					n.Pad = g.pick(" ", "   ", "\t", " \t ")
+					n.Pad = g.pick(" ", "   ", "\t", " \t ", "\u00a0", " \u3000")
+				}
+				if n.Kind == KStmt && g.chance(4) {
+					// white space that is not ASCII in front of the statement (pasted from a web page)
+					n.Lead = g.pick("\u00a0", "\u3000", "\u00a0 ", "\u2003\u00a0")
 				}
 				for i := range n.Chain {
 					if g.chance(3) {
